@@ -23,7 +23,7 @@
   Not proved here: that the non-NaN cells are the storage values of that key (checked by the correspondence and the
   direct oracle `table-value` only).
 -/
-import SH.Lemmas.TablePage
+import SH.Lemmas.TableWhats
 
 namespace SH.C25
 open SH.Table
@@ -655,6 +655,50 @@ example : (getTable .fixed reqOrd lodsOrd [[some [[rowT 10 1, rowT 10 2]], some 
     (fun r => r.1.map (fun o => o.key)) = some [⟨11, [2], 0⟩, ⟨11, [1], 0⟩, ⟨10, [1], 0⟩] := by decide
 example : ¬ VisitSorted reqOrd (lodsOrd.zip [some [[rowT 10 1, rowT 10 2]], some [[rowT 11 1, rowT 11 2]]]) := by
   unfold VisitSorted; decide
+
+/-! ## getHandlerWhat: one column per requested function, in the order of the request -/
+
+/-- **nothing dropped, order kept.** For every list of requested functions (any function codes, duplicates, runs of
+    functions that share a storage selector): the function lists of the storage queries getHandlerWhat builds,
+    concatenated, are the request sorted by function code (the order in which the response lists the functions);
+    the sorted request is a permutation of the request; every storage query uses between 1 and 7 selectors. -/
+theorem getHandlerWhat_keeps_every_function (request : List Fn) :
+    (getHandlerWhat request).flatMap (·.sel) = sortFns request ∧
+    (sortFns request).Perm request ∧
+    (sortFns request).Pairwise (fun a b => a.digest ≤ b.digest) ∧
+    (∀ g ∈ getHandlerWhat request, 1 ≤ g.qry.length ∧ g.qry.length ≤ tsValueCount) :=
+  ⟨groupSorted_concat _, sortFns_perm _, sortFns_sorted _, groupSorted_qryOk _⟩
+
+/-- **one column per requested function (over the modelled grouping).** For every request whose columns are the ones
+    getHandlerWhat derives from the requested functions (`q.cols = colsOf request` — no longer an arbitrary grouping),
+    every LOD split, storage output without duplicate keys per storage query, markers, direction and limit: every table
+    row has exactly as many columns as functions were requested, and column `i` shows the value field of the `i`-th
+    function of the (sorted) request: the row's data is, block by block, `cellBlock` of the query's columns
+    (`cell_content`), and the blocks' columns concatenated are the fields of the sorted request in order. -/
+theorem one_column_per_requested_function (request : List Fn) (q : Req) (hq : q.cols = colsOf request)
+    (lods : List Lod) (store : List (List (Option (List (List Row)))))
+    (rows : List ORow) (more : Bool) (hs : q.cols.length ≤ store.length)
+    (hnd : ∀ t ∈ todoOf q lods store, ((storedRows t.2).map (·.key)).Nodup)
+    (h : getTable .fixed q lods store = some (rows, more)) :
+    (∀ o ∈ rows, o.data.length = request.length) ∧
+    q.cols.flatten = (sortFns request).map (·.field) ∧
+    (∀ o ∈ rows, o.data = (todoOf q lods store).flatMap (fun t => cellBlock t.1 (passRows .fixed q t.2 0) o.key)) := by
+  refine ⟨?_, by rw [hq]; exact colsOf_flatten request, cell_content q lods store rows more hnd h⟩
+  intro o ho
+  rw [one_column_per_function q lods store rows more hs hnd h o ho, hq]
+  exact colsOf_total request
+
+/-- count, count_sec, count_raw, max: two storage selectors, one query, four columns in request order; a request with
+    eight selectors is split after the seventh -/
+example : (getHandlerWhat [⟨9, 3⟩, ⟨2, 0⟩, ⟨1, 0⟩, ⟨3, 0⟩]).map (fun g => (g.sel.map (·.digest), g.qry)) =
+    [([1, 2, 3, 9], [(2, 0), (3, 0)])] := by decide
+example : (getHandlerWhat ((List.range 8).map (fun i => ⟨10 + i, 5⟩))).map (fun g => g.sel.length) = [7, 1] := by decide
+/-- non-vacuity of `one_column_per_requested_function`: a request (count_raw, count, max) whose columns are computed by
+    the modelled getHandlerWhat -/
+example : colsOf [⟨3, 0⟩, ⟨1, 0⟩, ⟨9, 3⟩] = [[0, 0, 3]] ∧ ([⟨3, 0⟩, ⟨1, 0⟩, ⟨9, 3⟩] : List Fn).length = 3 := by decide
+/-- dropping the functions that share a selector (a grouping that appends to `sel` only when a new selector slot is
+    taken) loses columns: the concatenation has 2 elements for 4 requested functions -/
+example : ([([⟨1, 0⟩, ⟨9, 3⟩] : List Fn)].flatMap id).length = 2 ∧ (sortFns [⟨9, 3⟩, ⟨2, 0⟩, ⟨1, 0⟩, ⟨3, 0⟩]).length = 4 := by decide
 
 /-! ## old code (before 8d8821bd): the shared backing array of rowRepr.Tags -/
 
